@@ -95,7 +95,7 @@ def segOk (want : Bytes) (seg : List Ev) : Bool :=
   seg.any isDone && !seg.any isRaised && (seg.filterMap chunkOf).flatten == want
 
 def cShape : Input → Trace → Bool
-  | .eq .., .eq .. | .text _, .text .. | .json _, .json .. | .decode .., .decode .. | .stream _, .stream _
+  | .eq .., .eq .. | .text _, .text .. | .json _, .json .. | .decode .., .decode .. | .stream _, .stream ..
   | .ctype _, .ctype .. | .ctypeSeq _, .ctypeSeq _ | .copy .., .copy _ => true
   | _, _ => false
 
@@ -139,13 +139,13 @@ def cCharset : Input → Trace → Bool
   | _, _ => true
 
 def cChunkSizes : Input → Trace → Bool
-  | .stream i, .stream evs => (evs.filterMap chunkOf).all fun c => !c.isEmpty && c.length ≤ i.chunkSize
+  | .stream i, .stream evs _ => (evs.filterMap chunkOf).all fun c => !c.isEmpty && c.length ≤ i.chunkSize
   | _, _ => true
 
 /-- the bytes from the requested position to end of file: in the first consumption, and in every one when the
 source is re-opened (file) or buffered -/
 def cChunkConcat : Input → Trace → Bool
-  | .stream i, .stream evs =>
+  | .stream i, .stream evs _ =>
     match expected i with
     | none => true
     | some want =>
@@ -154,9 +154,56 @@ def cChunkConcat : Input → Trace → Bool
       (if i.isFile || i.bufferNow then cons.all (segOk want) else (cons.take 1).all (segOk want))
   | _, _ => true
 
+/-- where an evaluation that started reading at position `p` leaves the stream: at the end of the data (or at `p`, beyond it) -/
+def posAfter (i : StreamIn) (p : Nat) : Nat := max p (dataOf i).length
+
+/-- position `seek(off, wh)` leads to when the stream stands at `cur` (for streams that do not refuse the seek) -/
+def seekFrom (i : StreamIn) (off : Int) (wh : Nat) (cur : Nat) : Nat :=
+  ((if wh = 0 then (0 : Int) else if wh = 1 then (cur : Int) else ((dataOf i).length : Int)) + off).toNat
+
+/-- every consumption in turn yields the bytes from the position ITS seek leads to, the stream standing where the
+previous evaluation left it -/
+def reevalOk (i : StreamIn) (off : Int) (wh : Nat) : Nat → List (List Ev) → Bool
+  | _, [] => true
+  | cur, seg :: rest =>
+    segOk ((dataOf i).drop (seekFrom i off wh cur)) seg && reevalOk i off wh (posAfter i (seekFrom i off wh cur)) rest
+
+/-- the seek offset is counted from the start or from the end of the data (not from the current position) -/
+def absSeek (i : StreamIn) : Bool :=
+  match i.seekTo with
+  | some (_, wh) => wh != 1
+  | none => false
+
+/-- RE-EVALUATION (seed C16-f).  A content made by `content_from_stream(stream, seek_offset=…)` seeks again EVERY time
+its bytes are asked for: every consumption - not only the first - yields the bytes from the requested position to the
+end of the data.  For `seek_whence` 0 and 2 that is the same byte string every time (`C16_reeval_abs`); for whence 1
+the offset counts from where the previous evaluation left the stream, which is what `reevalOk` follows.
+(Files and buffered contents: clause `chunk-concat` already demands every consumption.  WITHOUT a seek offset nothing
+rewinds a stream: a second consumption legitimately yields what is left, i.e. nothing - not claimed.) -/
+def cReeval : Input → Trace → Bool
+  | .stream i, .stream evs _ =>
+    match i.seekTo, startPos i with
+    | some (off, wh), some _ =>
+      if i.isFile || i.bufferNow then true else reevalOk i off wh (posBefore i) (consumptions evs)
+    | _, _ => true
+  | _, _ => true
+
+def eqAnswer : Ev → Option Bool | .eqSelf b => some b | _ => none
+
+/-- `c == c`, and again: a content whose every evaluation yields the same bytes - a file (re-opened), a buffered content,
+a stream content with a seek offset counted from the start or the end - equals itself, every time it is asked.  (A stream content
+without an offset, or with one counted from the current position, reads what is left each time: its `==` compares two
+different evaluations and is not claimed.) -/
+def cEqSelf : Input → Trace → Bool
+  | .stream i, .stream _ eqEvs =>
+    if (expected i).isSome && (i.isFile || i.bufferNow || absSeek i) then
+      eqEvs.filterMap eqAnswer == List.replicate i.eqs true
+    else true
+  | _, _ => true
+
 /-- no read before the content is iterated unless `buffer_now`, and then every read happens at construction -/
 def cLazy : Input → Trace → Bool
-  | .stream i, .stream evs =>
+  | .stream i, .stream evs _ =>
     let pre := evs.takeWhile (!isMade ·)
     let post := evs.dropWhile (!isMade ·)
     if i.bufferNow then post.all (!isIO ·) else evs.any isMade && pre.all (!isIO ·)
@@ -214,7 +261,7 @@ def cSnapshot : Input → Trace → Bool
 def clauses : List (String × (Input → Trace → Bool)) :=
   [("shape", cShape), ("bytes", cBytes), ("equality", cEq), ("text-roundtrip", cText), ("json-roundtrip", cJson),
    ("as-text-whole", cAsText), ("chunking-independent", cChunking), ("charset", cCharset), ("chunk-sizes", cChunkSizes),
-   ("chunk-concat", cChunkConcat), ("lazy", cLazy), ("ct-roundtrip", cCtRoundtrip), ("ct-history-independent", cCtHistory),
+   ("chunk-concat", cChunkConcat), ("re-evaluation", cReeval), ("eq-self", cEqSelf), ("lazy", cLazy), ("ct-roundtrip", cCtRoundtrip), ("ct-history-independent", cCtHistory),
    ("snapshot", cSnapshot)]
 
 def holds (i : Input) (t : Trace) : Bool := clauses.all fun c => c.2 i t
